@@ -96,8 +96,45 @@ class C11(Prop):
             model = ctx.run_model(lines)
             ctx.compare("punct", lines, impl, model, oracle=lambda ln, a: None, sig=lambda ln: " ".join(ln.split()[:4]))
             ctx.traces += len(lines)
+        self.decoder_reuse(ctx)
         ctx.sample({"op": lines[0][:90] + "...", "impl": impl[0][:60] + "..."})
         ctx.sample({"op": " ".join(lines[2 * reps + len(PUNCT) * reps].split()[:4]) + " ...", "note": "depuncture with pre-filled output buffer"})
+
+    def decoder_reuse(self, ctx):
+        """the decoder de-punctures all four geometries into ONE reused buffer (a union): clean full-confidence frames of alternating kinds,
+        including CRC-failing link setup frames and late entry, must each decode at cost 0 with the exact payload whatever the buffer held
+        from the frame before (depuncture_prev_independent at its call sites), and as the history-free model does"""
+        from lib import decgen, deccheck
+        exe = self.impl_driver(ctx)
+        rng = ctx.rng
+        g = decgen.Gen(rng)
+        g.mags = lambda: 7
+        fixed = [["lsf_voice", "stream", "stream", "lsf_badcrc"] + ["lich_ok"] * 6 + ["stream", "stream", "bert", "lsf_voice", "stream", "lsf_pkt_raw", "pkt_mid", "pkt_eof",
+                  "lsf_voice", "stream", "bert", "bert", "lsf_badcrc", "bert", "lsf_pkt_enc", "pkt_mid", "lsf_voice", "stream"],
+                 ["bert", "lsf_voice", "stream", "lsf_nearcrc"] + ["stream"] * 7 + ["lsf_pkt_raw", "pkt_mid", "lsf_badcrc"] + ["lich_ok"] * 6 + ["stream"] * 2]
+        pool = ["lsf_voice", "lsf_badcrc", "stream", "stream", "stream", "lich_ok", "bert", "lsf_pkt_raw", "pkt_mid", "pkt_eof", "lsf_data", "lsf_pkt_enc"]
+        words = fixed + [[rng.choice(pool) for _ in range(40)] for _ in range(4 if ctx.tier == "quick" else 120)]
+        lines, metas, impl, model = deccheck.run_words(ctx, exe, words, clean_prob=1.1, gen=g)
+        for ln, m, a in zip(lines, metas, impl):
+            if m is None:
+                continue
+            r = decgen.parse_reply(a)
+            if not r:
+                continue
+            ctx.count(ln, nontrivial=True)
+            ctx.stat("dec-reuse:" + m["kind"])
+            for c in r["calls"]:
+                if c["type"] in (0, 2, 3, 4, 5):
+                    want = m.get("lsf") if c["type"] == 0 else m.get("payload")
+                    ok_payload = want is None or c["type"] == 0 or c["bytes"] == want
+                    if c["cost"] != 0 or not ok_payload:
+                        ctx.violate(f"dec-reuse:{m['kind']}", f"clean full-confidence {m['kind']} frame after frames of other geometries in the decoder's reused de-puncture buffer: "
+                                    f"{deccheck.FT[c['type']]} delivered with cost {c['cost']}" + ("" if ok_payload else " and a payload that differs from the transmitted one") +
+                                    " (a punctured/not-received position was not set to the erasure value)",
+                                    {"stream": "dec", "ops": deccheck.history(lines, ln), "impl": a})
+        if model is not None:
+            ctx.compare("dec-reuse", lines, impl, model, oracle=lambda ln, a: None, sig=lambda ln: "dec-reuse")
+            ctx.traces += len(lines)
 
 
 PROP = C11()
